@@ -10,7 +10,7 @@ from ..runner import Leg, Res, libcall
 
 PROPERTY = 'C18'
 NEED_C = True
-RULE = ('Matrix leg: pairs and self-comparison (series2=None), gamma in (0.05,5], tau in [0,1), delta <= 0, delta_factor in '
+RULE = ('Matrix leg: pairs and self-comparison (series2=None), gamma in (0.05,5], tau in [0,1] (tau = 1 puts every cell except exact matches, whose affinity is exactly 1, on the delta branch), delta <= 0, delta_factor in '
         '(0,1], penalty in {None, 0, positive}, window in {None, 1..}, only_triu; engines Python, C full, C compact expanded '
         'through wps_expand_slice (whole matrix and a prefix of complete rows). Oracle: an independent evaluation of the '
         'documented recurrence over the documented band (cells outside the band / below the diagonal with only_triu are '
@@ -42,7 +42,7 @@ def _base(draw, max_len=7):
     l2 = len(s1) if s2 is None else len(s2)
     return {'s1': s1, 's2': s2,
             'gamma': draw(st.sampled_from([0.25, 0.5, 1.0, 1.0, 2.0, 5.0])),
-            'tau': draw(st.sampled_from([0.0, 0.1, 0.36, 0.5, 0.8, 0.95])),
+            'tau': draw(st.sampled_from([0.0, 0.1, 0.36, 0.5, 0.8, 0.95, 1.0])),
             'delta': draw(st.sampled_from([0.0, -0.1, -0.36, -0.72, -2.0])),
             'delta_factor': draw(st.sampled_from([1.0, 0.9, 0.5, 0.25])),
             'penalty': draw(st.sampled_from([None, 0, 0.05, 0.25, 0.5])),
@@ -185,7 +185,7 @@ def run_matrix(case):
 def _case_hist(draw):
     c = draw(_base(max_len=8))
     c['use_c'] = draw(st.booleans())
-    c['tau'] = draw(st.sampled_from([0.1, 0.36, 0.5, 0.8]))
+    c['tau'] = draw(st.sampled_from([0.1, 0.36, 0.5, 0.8, 1.0]))
     c['delta'] = draw(st.sampled_from([-0.1, -0.36, -0.72, -2.0]))
     ops = []
     for _ in range(draw(st.integers(1, 5))):
